@@ -19,6 +19,9 @@ if "ifdata" in sections or len(sys.argv) == 1:
 if "tokenizer" in sections or len(sys.argv) == 1:
     from rules import c16
     tab["tokenizer"] = c16.tokenizer_table(prog)
+if "cursor" in sections or len(sys.argv) == 1:
+    from rules import c05
+    tab["cursor"] = c05.cursor_table(prog)
 if "limits" in sections:
     from rules import c12
     tab["limits"] = c12.limits_table(prog)
